@@ -34,6 +34,71 @@ type c14Scenario struct {
 	// identity override (scenarios not taken from the standard recording)
 	Name2 string
 	Key   *keystore.KeyPair
+	// Other, when set, is the second activity instead of the poll tick (a second API request),
+	// and Prop the property the scenario is judged for (default C14)
+	Other     func(nd *world.Node) error
+	OtherName string
+	Prop      string
+}
+
+// genuineResults computes the machines' genuine results for every operation of the recorded
+// ceremony, keyed "<node>|<operation id>".
+func genuineResults(r *kit.Run, rec *world.Recording) map[string]*types.Operation {
+	results := map[string]*types.Operation{}
+	for v := 0; v < rec.W.N; v++ {
+		ops := machineOps(r, rec, v)
+		for k := range ops {
+			a, err := freshMachineAt(rec, v, ops, k)
+			if err != nil {
+				r.Infra("machine: %v", err)
+			}
+			o := ops[k]
+			res, err := a.Process(&o)
+			a.Close()
+			os.RemoveAll(a.Dir)
+			if err != nil {
+				r.Infra("result: %v", err)
+			}
+			results[fmt.Sprintf("%d|%s", v, o.ID)] = res
+		}
+	}
+	return results
+}
+
+// duplicateSubmissionScenarios: the same answer submitted twice AT THE SAME TIME (the HTTP API
+// serves requests concurrently; a retry, a double click): one scenario per operation type.
+func duplicateSubmissionScenarios(r *kit.Run, rec *world.Recording) []c14Scenario {
+	results := genuineResults(r, rec)
+	var out []c14Scenario
+	seenType := map[string]bool{}
+	for v := 0; v < rec.W.N; v++ {
+		for k, sn := range rec.PreSnaps[v] {
+			pool, del := sn.RawOps()
+			for id, o := range pool {
+				if _, d := del[id]; d || seenType[string(o.Type)] {
+					continue
+				}
+				id := id
+				var submit func(nd *world.Node) error
+				if fsm.State(o.Type) == spf.StateAwaitParticipantsConfirmations {
+					submit = func(nd *world.Node) error {
+						return nd.Svc.ApproveParticipation(&dto.OperationIdDTO{OperationID: id})
+					}
+				} else {
+					res := results[fmt.Sprintf("%d|%s", v, id)]
+					if res == nil {
+						continue
+					}
+					submit = func(nd *world.Node) error { return nd.SubmitResult(cloneOp15(res)) }
+				}
+				seenType[string(o.Type)] = true
+				out = append(out, c14Scenario{Prop: "C15", View: v, Base: sn, Log: append([]storage.Message{}, rec.Log[:k]...),
+					API: submit, Other: submit, OtherName: "api-again", APITag: "duplicate-submission:" + string(o.Type),
+					Name: fmt.Sprintf("node%d@%d the answer to %s submitted twice at the same time", v, k, o.Type)})
+			}
+		}
+	}
+	return out
 }
 
 var boardIDRe14 = regexp.MustCompile(`"id":"[^"]*","dkg_round_id":"([^"]*)","offset":\d+`)
@@ -105,24 +170,7 @@ func c14(tier string, args []string) int {
 	rec := getRecording(r, 3, 2)
 	var scenarios []c14Scenario
 	// genuine results per (node, op id)
-	results := map[string]*types.Operation{}
-	for v := 0; v < rec.W.N; v++ {
-		ops := machineOps(r, rec, v)
-		for k := range ops {
-			a, err := freshMachineAt(rec, v, ops, k)
-			if err != nil {
-				r.Infra("machine: %v", err)
-			}
-			o := ops[k]
-			res, err := a.Process(&o)
-			a.Close()
-			os.RemoveAll(a.Dir)
-			if err != nil {
-				r.Infra("result: %v", err)
-			}
-			results[fmt.Sprintf("%d|%s", v, o.ID)] = res
-		}
-	}
+	results := genuineResults(r, rec)
 	for v := 0; v < rec.W.N; v++ {
 		name := rec.W.Nodes[v].Name
 		seen := map[string]bool{}
@@ -339,12 +387,25 @@ func runC14(r *kit.Run, rec *world.Recording, sc c14Scenario, bound int) (int, i
 		}
 	}
 	api := func() { _ = sc.API(nd) }
+	prop, firstName := "C14", "poller"
+	if sc.Prop != "" {
+		prop = sc.Prop
+	}
+	if sc.Other != nil {
+		poll = func() { _ = sc.Other(nd) }
+		firstName = sc.OtherName
+	}
 	// The outcome is taken at quiescence: after both activities finished the poller keeps
 	// ticking until the node consumed the whole board (a tick that started in the middle of a
 	// multi-message Send legitimately sees a prefix of it; the next tick sees the rest).
+	tick := func() {
+		if err := nd.Tick(-1); err != nil {
+			panic(fmt.Sprintf("poll loop: %v", err))
+		}
+	}
 	settle := func() string {
 		for i := 0; i < 20 && int(nd.Offset()) < board.Len(); i++ {
-			poll()
+			tick()
 		}
 		return outcome14(nd, mem, board, len(sc.Log))
 	}
@@ -361,20 +422,20 @@ func runC14(r *kit.Run, rec *world.Recording, sc c14Scenario, bound int) (int, i
 		OutcomeKey: func(o interface{}) string { return kit.Digest(o) },
 		Build: func() ([]string, []func(), func() interface{}) {
 			reset()
-			return []string{"poller", "api"}, []func(){poll, api}, func() interface{} {
+			return []string{firstName, "api"}, []func(){poll, api}, func() interface{} {
 				return settle()
 			}
 		}}
 	ex.Check = func(x *sched.Exec) {
 		tr := map[string]interface{}{"scenario": sc.Name, "schedule": x.Schedule(), "choices": x.Choices}
 		if x.Deadlock || x.Livelock || x.Aborted != "" {
-			r.Violation("C14/deadlock/"+sc.APITag, fmt.Sprintf("%s: deadlock=%v livelock=%v %s", sc.Name, x.Deadlock, x.Livelock, x.Aborted), tr)
+			r.Violation(prop+"/deadlock/"+sc.APITag, fmt.Sprintf("%s: deadlock=%v livelock=%v %s", sc.Name, x.Deadlock, x.Livelock, x.Aborted), tr)
 			return
 		}
 		got := x.Obs.(string)
 		if got != s12 && got != s21 {
 			_ = diffClass
-			r.Violation("C14/not-serialisable/"+sc.APITag, fmt.Sprintf("%s: a schedule with %d pre-emption(s) ends in a state that neither serial order produces (%s)", sc.Name, x.Preemptions(), diffDetail(got, s12, s21)), tr)
+			r.Violation(prop+"/not-serialisable/"+sc.APITag, fmt.Sprintf("%s: a schedule with %d pre-emption(s) ends in a state that neither serial order produces (%s)", sc.Name, x.Preemptions(), diffDetail(got, s12, s21)), tr)
 		}
 	}
 	a, b := ex.RunOne(nil), ex.RunOne(nil)
@@ -422,7 +483,7 @@ func diffDetail(got, a, b string) string {
 				}
 				return t
 			}
-			parts = append(parts, fmt.Sprintf("%s: concurrent %s, poll-then-api %s, api-then-poll %s", k, s(g[k]), s(x[k]), s(y[k])))
+			parts = append(parts, fmt.Sprintf("%s: concurrent %s, one serial order %s, the other serial order %s", k, s(g[k]), s(x[k]), s(y[k])))
 		}
 	}
 	for _, k := range []string{"rounds", "signatures"} {
